@@ -281,6 +281,22 @@ func (w *realWorld) runPath(path []int) (viols [][2]string, outcome string, inco
 		}
 	}
 	w.settle()
+	// an answered call needs its goroutine to be scheduled before it shows as done: on a loaded machine
+	// that can take longer than settle waits, and a scheduling delay is not a verdict
+	for i := 0; i < 500; i++ {
+		allDone := true
+		w.mu.Lock()
+		for _, c := range w.pending {
+			if !c.done.Load() {
+				allDone = false
+			}
+		}
+		w.mu.Unlock()
+		if allDone {
+			break
+		}
+		time.Sleep(10 * time.Millisecond)
+	}
 	w.mu.Lock()
 	for i, c := range w.pending {
 		switch {
